@@ -17,7 +17,12 @@ class _CannotBeRenderedError(Exception):
 
 
 def get_literal_expr(obj: object) -> Optional[str]:
-    if type(obj) in (int, str, bytes, bytearray):
+    if type(obj) is int:
+        try:
+            return repr(obj)
+        except ValueError:  # int exceeding the limit for integer string conversion has no literal form
+            return None
+    if type(obj) in (str, bytes, bytearray):
         return repr(obj)
     if type(obj) is float:
         if math.isinf(obj) or math.isnan(obj):
